@@ -40,6 +40,9 @@ type User implements Node {
   bestFriend: User
   pets: [Pet!]!
   stats: Stats
+  matrix: [[Int!]!]!
+  rows: [[String]]
+  grid: [[User!]!]
 }
 
 type Stats {
@@ -149,6 +152,10 @@ pub enum Menu {
     Overlap,
     /// client pointers (concrete, abstract and list targets) selected at several positions
     Pointers,
+    /// nested list types (lists of lists of scalars and of objects)
+    Lists,
+    /// generated schemas (root names, id shapes, Node, unions / interfaces, @exposeField forms, nested lists, recursive inputs) with adapted programs
+    Schemas,
     /// raw single-token mutations of the checked-in demo projects (literals and schema)
     DemoMutations,
     /// the same client field / pointer defined several times (invalid programs; determinism of the diagnostics)
@@ -216,7 +223,7 @@ pub fn menu(ty: Ty, m: Menu) -> Vec<Atom> {
         (Ty::Pet, Menu::Args) => vec![a("id"), a("tag(style: \"s\", n: 1)"), a("t2: tag(style: \"it's\")"), av("t3: tag(n: $n)", &[("n", "Int")]), a("t4: tag(n: -1)")],
         (Ty::Node, Menu::Args) => vec![a("__typename")],
 
-        (_, Menu::Decls) | (_, Menu::Dups) | (_, Menu::DemoMutations) => vec![a("id")],
+        (_, Menu::Decls) | (_, Menu::Dups) | (_, Menu::DemoMutations) | (_, Menu::Schemas) => vec![a("id")],
         (Ty::Query, Menu::Pointers) => vec![
             o("me", Ty::User),
             Atom { text: "bestUser", child: Some(Ty::User), vars: &[], needs: Some("Query.bestUser") },
@@ -232,6 +239,9 @@ pub fn menu(ty: Ty, m: Menu) -> Vec<Atom> {
         (Ty::Pet, Menu::Pointers) => vec![a("id"), a("name"), Atom { text: "ownerNode", child: Some(Ty::Node), vars: &[], needs: Some("Pet.ownerNode") }, o("owner", Ty::User)],
         (Ty::Node, Menu::Pointers) => vec![a("id"), a("__typename"), o("asUser", Ty::User)],
         (Ty::Stats, Menu::Pointers) => vec![a("score")],
+        (Ty::Query, Menu::Lists) => vec![o("me", Ty::User), o("users(first: 1)", Ty::User)],
+        (Ty::User, Menu::Lists) => vec![a("id"), a("matrix"), a("rows"), o("grid", Ty::User), a("m2: matrix"), o("friends(first: 1)", Ty::User)],
+        (_, Menu::Lists) => vec![a("id")],
         (Ty::Query, Menu::Overlap) => vec![o("me", Ty::User)],
         (Ty::User, Menu::Overlap) => vec![a("id"), a("name"), a("nick"), o("bestFriend", Ty::User), c("UserChild", "User.UserChild")],
         (_, Menu::Overlap) => vec![a("id")],
@@ -242,6 +252,13 @@ pub fn menu(ty: Ty, m: Menu) -> Vec<Atom> {
             Atom { text: "pq2: PetQ(x: $m)", child: None, vars: &[("m", "Int")], needs: Some("Query.PetQ") },
             c("pq3: PetQ", "Query.PetQ"),
             ov("user(id: $id)", Ty::User, &[("id", "ID!")]),
+            o("nn: node(id: \"1\")", Ty::Node),
+        ],
+        (Ty::Node, Menu::ClientArgs) => vec![
+            a("id"),
+            c("NodeArg(m: 3)", "Node.NodeArg"),
+            Atom { text: "na2: NodeArg(m: $m)", child: None, vars: &[("m", "Int")], needs: Some("Node.NodeArg") },
+            c("na3: NodeArg", "Node.NodeArg"),
         ],
         (Ty::User, Menu::ClientArgs) => vec![
             a("id"),
@@ -386,6 +403,8 @@ pub enum Decl {
     Raw { export: String, text: String },
     /// a fixed non-exported literal (entrypoint) given as text
     RawBare { text: String },
+    /// the whole program is a generated schema + adapted program (see schemagen.rs)
+    SchemaVariant { code: usize },
     /// the whole program is a demo project with one token mutated (see demomut.rs)
     DemoMutation { demo: String, target: String, index: usize, mutation: usize },
 }
@@ -418,11 +437,18 @@ impl Program {
                 Decl::Raw { export, text } => (Some(export.clone()), text.clone()),
                 Decl::RawBare { text } => (None, text.clone()),
                 Decl::DemoMutation { demo, target, index, mutation } => (None, crate::demomut::apply(demo, target, *index, *mutation).1),
+                Decl::SchemaVariant { code } => {
+                    let (p, d) = crate::schemagen::build(*code);
+                    (None, format!("{d} :: {} :: {}", p.files[0].1.replace('\n', " "), p.extension.unwrap_or_default().replace('\n', " ")))
+                }
             })
             .collect()
     }
 
     pub fn project(&self) -> Project {
+        if let Some(Decl::SchemaVariant { code }) = self.decls.first() {
+            return crate::schemagen::build(*code).0;
+        }
         if let Some(Decl::DemoMutation { demo, target, index, mutation }) = self.decls.first() {
             return crate::demomut::apply(demo, target, *index, *mutation).0;
         }
@@ -459,6 +485,12 @@ pub fn programs(m: Menu, k: usize) -> Vec<Program> {
                     ],
                 });
             }
+        }
+        return out;
+    }
+    if m == Menu::Schemas {
+        for code in 0..crate::schemagen::count() {
+            out.push(Program { menu: m, decls: vec![Decl::SchemaVariant { code }] });
         }
         return out;
     }
@@ -609,10 +641,12 @@ pub fn programs(m: Menu, k: usize) -> Vec<Program> {
         return out;
     }
     if m == Menu::ClientArgs {
-        let avail = ["Query.PetQ", "User.Friends", "User.WithInput"];
+        let avail = ["Query.PetQ", "User.Friends", "User.WithInput", "Node.NodeArg"];
         let fixed = vec![
             Decl::Raw { export: "Friends".into(), text: "field User.Friends($n: Int) {\n  friends(first: $n) {\n    id\n  }\n}".into() },
             Decl::Raw { export: "WithInput".into(), text: "field User.WithInput($x: Int) {\n  pets {\n    tag(n: $x)\n  }\n  bestFriend {\n    Friends(n: $x)\n  }\n}".into() },
+            // an argument used below an inline fragment, under the same variable name the root uses
+            Decl::Raw { export: "NodeArg".into(), text: "field Node.NodeArg($m: Int) {\n  asUser {\n    friends(first: $m) {\n      id\n    }\n  }\n}".into() },
             Decl::Raw { export: "PetQ".into(), text: "field Query.PetQ($x: Int) {\n  pet(id: \"p\", input: {n: $x, nested: {a: $x}}) {\n    id\n  }\n}".into() },
         ];
         for n in 0..=k {
